@@ -87,3 +87,38 @@ pub fn close_leaked_os(path: &std::ffi::OsStr) {
         for fd in fds { unsafe { libc::close(fd); } }
     }
 }
+
+
+// ------------------------------------------------------------------ watchdog: a request that never returns
+//
+// C14 / C18 promise that client calls return. A change that makes one spin for ever must not hang the
+// check: the request in progress is remembered, and a watchdog thread answers `<request> => hang` in
+// its place and ends the process (exit code 3) when it has been running for CBH_WATCHDOG_S seconds
+// (default 120; the longest legitimate request, the 32767-update ABA replay, takes well under that).
+static CURRENT: std::sync::Mutex<Option<(String, u64)>> = std::sync::Mutex::new(None);
+
+/// seconds of the kernel's CLOCK_MONOTONIC by raw system call: the process's `clock_gettime` symbol is
+/// interposed (vclock) and every call through it is logged, so the watchdog must not use it
+fn raw_mono_secs() -> u64 {
+    let mut ts = libc::timespec { tv_sec: 0, tv_nsec: 0 };
+    unsafe { libc::syscall(libc::SYS_clock_gettime, libc::CLOCK_MONOTONIC as libc::c_long, &mut ts as *mut libc::timespec); }
+    ts.tv_sec as u64
+}
+
+pub fn watch(req: &str) { *CURRENT.lock().unwrap_or_else(|e| e.into_inner()) = Some((req.to_string(), raw_mono_secs())); }
+pub fn unwatch() { *CURRENT.lock().unwrap_or_else(|e| e.into_inner()) = None; }
+
+pub fn start_watchdog() {
+    let limit: u64 = std::env::var("CBH_WATCHDOG_S").ok().and_then(|s| s.parse().ok()).unwrap_or(120);
+    std::thread::spawn(move || loop {
+        let nap = libc::timespec { tv_sec: 0, tv_nsec: 500_000_000 };
+        unsafe { libc::syscall(libc::SYS_nanosleep, &nap as *const libc::timespec, std::ptr::null_mut::<libc::timespec>()); }
+        let cur = CURRENT.lock().unwrap_or_else(|e| e.into_inner()).clone();
+        if let Some((req, t0)) = cur {
+            if raw_mono_secs().saturating_sub(t0) >= limit {
+                let line = format!("{} => hang\n", req);
+                unsafe { libc::write(1, line.as_ptr() as *const libc::c_void, line.len()); libc::_exit(3); }
+            }
+        }
+    });
+}
